@@ -32,7 +32,7 @@ type bCase struct {
 }
 
 func genBridge(t *rapid.T, withDrop bool) bCase {
-	ops := []string{"send", "send", "send", "recv", "recv", "cancel", "cut", "pause"}
+	ops := []string{"send", "send", "send", "recv", "recv", "cancel", "cut", "halfcut", "pause"}
 	if withDrop {
 		ops = append(ops, "drop")
 	}
@@ -244,6 +244,11 @@ func (g *brig) run(ops []bop, classes map[string]bool) []string {
 				classes["cut-while-send-in-flight"] = true
 			}
 			g.b.cut(op.P)
+		case "halfcut":
+			if inflight() {
+				classes["client-side-stream-failure-while-send-in-flight"] = true
+			}
+			g.b.halfcut(op.P)
 		case "drop":
 			g.b.dropNext(op.P, op.Kind, 1)
 			classes["dropping-relay"] = true
